@@ -293,6 +293,13 @@ func initScenarios() {
 	// secure trie; key indices 0..3 (hashed keys share 2 nibbles / 1 nibble / nothing with key 0)
 	addScenario("sA", true, []int{0, 1, 2, 3}, []int{1, 3}, 4, 5)
 	addScenario("sB", true, []int{0, 1, 2}, []int{2, 4}, 5, 6)
+	// secure trie with SecureTrie.Copy() in the alphabet (one value per key, no cache eviction): the copy
+	// keeps the content it had; uncommitted (dirty) branches are shared between copy and original
+	{
+		s := &scenario{Name: "sCopy/120", Secure: true, Limit: 120, Keys: []int{0, 1, 2, 3}, Vals: []int{1}, Depth: [2]int{5, 6}, Copy: true}
+		scenarios[s.Name] = s
+		scenarioNames = append(scenarioNames, s.Name)
+	}
 	sort.Strings(scenarioNames)
 }
 
